@@ -40,6 +40,10 @@ type c07Plan struct {
 	// Offset is robust.MessageOffset in the node (main() sets 4648398125000000000 by default;
 	// message and session ids are offset + raft index)
 	Offset uint64
+	// TruncateLog: after the snapshot raft drops the log up to the snapshot index (a follower
+	// that was brought up to date by InstallSnapshot, or TrailingLogs = 0): the crashing entry
+	// is the first one the raft log holds
+	TruncateLog bool `json:",omitempty"`
 }
 
 // TestVerifC07Child applies the plan's entries through the real FSM with the
@@ -80,6 +84,12 @@ func TestVerifC07Child(t *testing.T) {
 			_, persisted, err := f.snapshot(e.Id, cstart, -1)
 			fmt.Fprintf(w, "snapshot %v %v\n", persisted, err)
 			w.Flush()
+			if plan.TruncateLog && persisted {
+				first, _ := f.logstore.FirstIndex()
+				terr := f.logstore.DeleteRange(first, e.Id)
+				fmt.Fprintf(w, "truncated %d..%d %v\n", first, e.Id, terr)
+				w.Flush()
+			}
 			if plan.RestoreInChild && persisted {
 				// the same process restores the snapshot (InstallSnapshot on a lagging node) and crashes later
 				_, rerr := f.restoreLatest()
@@ -149,6 +159,10 @@ func c07MakePlan(seed int64) (*c07Plan, bool) {
 			plan.SnapAt = rng.Intn(ci-1) + 1
 			plan.SnapAll = rng.Intn(2) == 0
 			plan.RestoreInChild = rng.Intn(2) == 0
+			if seed%2 == 0 {
+				plan.TruncateLog = true
+				plan.SnapAt = ci // the snapshot covers everything before the crashing entry
+			}
 		}
 	case 1:
 		plan.SnapAfterRestart = true
@@ -230,9 +244,18 @@ func c07Run(rep *verifrep.R, dir string, plan *c07Plan, sample bool) {
 		return
 	}
 	var stored []*raft.Log
+	expectStored := 0
 	for i := range plan.Entries {
 		e := &plan.Entries[i]
 		var l raft.Log
+		if plan.TruncateLog && plan.SnapAt > 0 && i < plan.SnapAt && strings.Contains(out, "truncated ") {
+			// dropped by the truncation after the snapshot
+			if err := logstore.GetLog(e.Id, &l); err == nil {
+				rep.Note(fmt.Sprintf("entry %d survived the truncation", e.Id))
+			}
+			continue
+		}
+		expectStored++
 		if err := logstore.GetLog(e.Id, &l); err != nil {
 			viol("entry-lost", fmt.Sprintf("entry %d missing from the durable log after the crash: %v", e.Id, err))
 			continue
@@ -268,8 +291,11 @@ func c07Run(rep *verifrep.R, dir string, plan *c07Plan, sample bool) {
 		stored = append(stored, &lc)
 	}
 	logstore.Close()
-	if len(stored) != len(plan.Entries) {
+	if len(stored) != expectStored {
 		return
+	}
+	if plan.TruncateLog {
+		rep.Obs("plans-with-the-crashing-entry-first-in-the-raft-log", 1)
 	}
 	// phase 2: restart on the same directory and replay what the durable log holds.
 	// If the process dies in this phase the node does not survive its own replay:
